@@ -1439,6 +1439,180 @@ fn emit_clash_lines(out: &mut Out, r: &mut Rng, case: &str, j: &J) {
     }
 }
 
+// ------------------------------------------------------------------------------------------------
+// `(sty print-frag-a …)` / `(sty parse-frag-a …)`: annotations on namespaces and declarations
+// ------------------------------------------------------------------------------------------------
+
+fn anns_sx(a: &cedar_policy_core::est::Annotations) -> String {
+    format!("(anns{})", a.0.iter().map(|(k, v)| format!(" ({} {})", qs(&k.to_string()), match v { Some(v) => qs(v.val.as_str()), None => "none".to_string() })).collect::<String>())
+}
+
+/// the fragment without the annotations on record ATTRIBUTES (outside the model); second component: were there any?
+fn strip_attr_annotations(f: &Fragment<RawName>) -> (Fragment<RawName>, bool) {
+    let mut g = f.clone();
+    let mut any = false;
+    let mut fix = |t: &mut json_schema::Type<RawName>| {
+        let s = strip_annotations(t);
+        if format!("{s:?}") != format!("{t:?}") {
+            any = true;
+        }
+        *t = s;
+    };
+    for ns in g.0.values_mut() {
+        for c in ns.common_types.values_mut() {
+            fix(&mut c.ty);
+        }
+        for e in ns.entity_types.values_mut() {
+            if let json_schema::EntityTypeKind::Standard(st) = &mut e.kind {
+                fix(&mut st.shape.0);
+                if let Some(t) = &mut st.tags {
+                    fix(t);
+                }
+            }
+        }
+        for a in ns.actions.values_mut() {
+            if let Some(ap) = &mut a.applies_to {
+                fix(&mut ap.context.0);
+            }
+        }
+    }
+    (g, any)
+}
+
+/// `(afrag (ns "N" <anns> (commons ("n" <anns> ty)…) (entities …) (actions …))…)` in `BTreeMap` order
+fn afrag_sx(f: &Fragment<RawName>) -> Option<String> {
+    let plain = frag_sx(f, false)?; // inside the model's data at all?
+    let _ = plain;
+    let mut nss = Vec::new();
+    for (name, ns) in f.0.iter() {
+        let one = Fragment(BTreeMap::from([(name.clone(), ns.clone())]));
+        let _ = one;
+        let mut commons = String::new();
+        for (n, c) in &ns.common_types {
+            commons += &format!(" ({} {} {})", qs(&n.to_string()), anns_sx(&c.annotations), ty_sx(&c.ty)?);
+        }
+        let mut ents = String::new();
+        for (n, e) in &ns.entity_types {
+            // the entry body as `frag_sx` encodes it
+            let mut m = ns.clone();
+            m.common_types.clear();
+            m.actions.clear();
+            m.entity_types.retain(|k, _| k == n);
+            let enc = frag_sx(&Fragment(BTreeMap::from([(name.clone(), m)])), false)?;
+            let key = format!("(entities ({} ", qs(&n.to_string()));
+            let st = enc.find(&key)? + key.len();
+            let en = enc.rfind(")) (actions")?;
+            ents += &format!(" ({} {} {})", qs(&n.to_string()), anns_sx(&e.annotations), &enc[st..en]);
+        }
+        let mut acts = String::new();
+        for (n, a) in &ns.actions {
+            let mut m = ns.clone();
+            m.common_types.clear();
+            m.entity_types.clear();
+            m.actions.retain(|k, _| k == n);
+            let enc = frag_sx(&Fragment(BTreeMap::from([(name.clone(), m)])), false)?;
+            let key = format!("(actions ({} ", qs(n));
+            let st = enc.find(&key)? + key.len();
+            let en = enc.len() - 4; // entry, `(actions`, `(ns`, `(frag`
+            acts += &format!(" ({} {} {})", qs(n), anns_sx(&a.annotations), &enc[st..en]);
+        }
+        let nm = match name { None => String::new(), Some(n) => n.to_string() };
+        nss.push(format!(" (ns {} {} (commons{commons}) (entities{ents}) (actions{acts}))", qs(&nm), anns_sx(&ns.annotations)));
+    }
+    Some(format!("(afrag{})", nss.concat()))
+}
+
+/// the real `to_cedarschema` on a fragment whose record attributes carry no annotations, annotations kept as tokens
+fn emit_frag_print_a(out: &mut Out, case: &str, f: &Fragment<RawName>) -> Option<String> {
+    let (g, had_attr_anns) = strip_attr_annotations(f);
+    if had_attr_anns {
+        out.count("model:print-frag-a:attribute-annotations-stripped");
+    }
+    let Ok(Ok(text)) = guard(|| g.to_cedarschema()) else { return None };
+    let sx = afrag_sx(&g)?;
+    let Some(toks) = lex(&text) else {
+        out.count("model:print-frag-a:skipped-unlexable");
+        return None;
+    };
+    out.nontrivial(&format!("print-frag-a|{sx}"));
+    out.count(if sx.contains("(anns (") { "model:print-frag-a:annotated" } else { "model:print-frag-a:plain" });
+    out.line(format!("(sty print-frag-a {sx})"), format!("(toks {})", toks.join(" ")).replace("(toks )", "(toks)"), format!("{case} print-frag-a {text:?}"));
+    Some(text)
+}
+
+/// the real grammar (`cedar_schema::parser::parse_schema`, which runs `deduplicate_annotations`) on a text: the items in source
+/// order with their annotation maps (`ast::Annotations`: key order, an absent value is "") and the kind of every declaration
+fn emit_frag_parse_a(out: &mut Out, case: &str, text: &str) {
+    use cedar_policy_core::validator::cedar_schema::parser::parse_schema;
+    let Some(toks) = lex(text) else { return };
+    let a_sx = |a: &ast::Annotations| format!("(anns{})", a.iter().map(|(k, v)| format!(" ({} {})", qs(&k.to_string()), qs(v.val.as_str()))).collect::<String>());
+    let imp = match guard(|| parse_schema(text)) {
+        Ok(Ok(schema)) => {
+            if has_conversion_error(text) {
+                // reserved names are refused by the model's PARSER, by Rust in the conversion
+                out.count("model:parse-frag-a:skipped-conversion-error");
+                return;
+            }
+            let mut items = String::new();
+            for ns in &schema {
+                let kind = |d: &str| match variant_of(d).as_str() { "Entity" => "entity", "Action" => "action", _ => "type" };
+                match &ns.data.name {
+                    Some(p) => {
+                        items += &format!(" (ns {} {}", qs(&p.to_string()), a_sx(&ns.annotations));
+                        for d in &ns.data.decls {
+                            items += &format!(" ({} {})", kind(&format!("{:?}", d.data.node)), a_sx(&d.annotations));
+                        }
+                        items += ")";
+                    }
+                    None => {
+                        for d in &ns.data.decls {
+                            items += &format!(" (decl {} {})", kind(&format!("{:?}", d.data.node)), a_sx(&d.annotations));
+                        }
+                    }
+                }
+            }
+            format!("(ok (items{items}))")
+        }
+        Ok(Err(_)) => "(err)".to_string(),
+        Err(_) => {
+            out.propfail("schema parser panicked", case, text);
+            return;
+        }
+    };
+    out.nontrivial(&format!("parse-frag-a|{}", toks.join(" ")));
+    out.count(if imp == "(err)" { "model:parse-frag-a:err" } else if imp.contains("(anns (") { "model:parse-frag-a:ok-annotated" } else { "model:parse-frag-a:ok-plain" });
+    out.line(format!("(sty parse-frag-a (toks {}))", toks.join(" ")).replace("(toks )", "(toks)"), imp, format!("{case} parse-frag-a {text:?}"));
+}
+
+/// repeat one `@key…` line (→ `DuplicateAnnotations`) or drop the value of one
+fn mutate_ann_text(r: &mut Rng, text: &str) -> String {
+    let lines: Vec<&str> = text.lines().collect();
+    let idx: Vec<usize> = lines.iter().enumerate().filter(|(_, l)| l.trim_start().starts_with('@')).map(|x| x.0).collect();
+    if idx.is_empty() {
+        return format!("@doc @doc {text}");
+    }
+    let i = *r.pick(&idx);
+    let mut res: Vec<String> = lines.iter().map(|l| l.to_string()).collect();
+    match r.below(3) {
+        0 => res.insert(i, lines[i].to_string()),
+        1 => res[i] = lines[i].split('(').next().unwrap_or("").to_string(),
+        _ => res[i] = format!("{} @", lines[i]),
+    }
+    res.join("\n")
+}
+
+fn emit_annot_lines(out: &mut Out, r: &mut Rng, case: &str, f: &Fragment<RawName>) {
+    if let Some(printed) = emit_frag_print_a(out, case, f) {
+        emit_frag_parse_a(out, case, &printed);
+        if r.chance(40) {
+            emit_frag_parse_a(out, case, &mutate_ann_text(r, &printed));
+        }
+        if r.chance(20) {
+            emit_frag_parse_a(out, case, &mutate_decl_text(r, &printed));
+        }
+    }
+}
+
 /// single-token mutations at the declaration level
 fn mutate_decl_text(r: &mut Rng, text: &str) -> String {
     let reps: &[(&str, &str)] = &[
@@ -1462,6 +1636,7 @@ fn mutate_decl_text(r: &mut Rng, text: &str) -> String {
 /// fragment-level model lines for one fragment (JSON side: printed and re-parsed; Cedar side: the given text and a mutation of it)
 fn emit_frag_lines(out: &mut Out, r: &mut Rng, case: &str, f: &Fragment<RawName>, text: Option<&str>) {
     emit_to_cedar_checked(out, case, f);
+    emit_annot_lines(out, r, case, f);
     if let Some(printed) = emit_frag_print(out, case, f) {
         emit_frag_parse(out, case, &printed);
         if r.chance(30) {
